@@ -225,7 +225,7 @@ fn main() {
                         match child.try_wait() {
                             Ok(Some(st)) => break Ok(st),
                             Ok(None) => unsafe {
-                                libc::usleep(500);
+                                libc::usleep(2000);
                             },
                             Err(e) => break Err(e),
                         }
